@@ -487,6 +487,7 @@ class Driver(object):
         self.shadow = False
         self.vary_threads = True
         self.check_default_lookup = False
+        self.returned_exceptions = False
         self.in_opts = [dict(o) for o in consts.get('FreeOptsList', [])]
         self.out_opts = [dict(o) for o in consts.get('FreeOutOptsList', [])]
         self.world_tokens = {tuple(k): tuple(v) for k, v in consts['WorldMap'].items()}
@@ -605,6 +606,10 @@ class Driver(object):
         ctx.junk = [('a', 1), 5]
         ctx.sent_object = lambda v: copy.deepcopy(self.conc.value(v))
         ctx.result_object = lambda v: copy.deepcopy(self.conc.value(v))
+        if self.returned_exceptions and (self.beh_hash // 32) % 3 == 0:
+            # the operation / an output *returns* (does not raise) an exception object or the serialisable fallback form
+            forms = [ScriptedError1('returned, not raised'), {'error_type': ScriptedError1, 'error_repr': 'x'}]
+            ctx.result_object = lambda v: forms[(self.beh_hash // 128) % 2]
         ctx.fb_as_list = ((self.beh_hash // 16) % 2 == 0)
         ctx.replaying = False
         ctx.interrupt_cls = self.interrupt_cls
